@@ -50,6 +50,11 @@ import (
 //   6 regression: store Get fails from the k-th call during a merge  (6 nrows k)             obs (1)
 //   8 diff / merge with REAL progress ticks over a slow store, consumer loops of cmd/wrgl, watchdog on
 //     Stop / Error / Close    (8 mode nrows periodUs slowGetUs gapUs reps)  mode 0 diff, 1 merge    obs (0)
+//   9 `wrgl commit` body (wrgl.VerifCommit) on an injectable store, progress bars on/off, the k-th block
+//     write failing for EVERY k in 0..nblocks, child process    (9 requestedWorkers nblocks bars)   obs (r_0 .. r_n)
+//     r_k = 0 committed | 1 error returned | 2 panic | 3 hang
+//  10 `wrgl diff NEW.csv OLD.csv -n N` on raw multi-block CSV files through wrgl.RootCmd(), child process,
+//     compared with the -n 1 run    (10 nblocks N added removed modified reps)   obs (0 added removed modified)
 //   7 as 0, but the CSV has varying-length cells, the key is the SECOND column (1..40 bytes), the
 //     workers are released together right after SaveBlock (before indexing), and every block index
 //     is recomputed with objects.IndexBlock from the decoded rows and compared
@@ -70,6 +75,8 @@ type c16Store struct {
 	slowGetUs   int
 	failKeys    map[string]bool
 	failSetFrom int
+	failNthBlk  int // >0: the n-th Set of a blk/ key fails (once)
+	nblk        int
 	failGetFrom int
 	record      bool
 	sets        []string
@@ -144,6 +151,12 @@ func (s *c16Store) set(k, v []byte) error {
 	}
 	if s.failKeys[string(k)] || (s.failSetFrom > 0 && s.nset >= s.failSetFrom) {
 		return errC16Injected
+	}
+	if s.failNthBlk > 0 && strings.HasPrefix(string(k), "blk/") {
+		s.nblk++
+		if s.nblk == s.failNthBlk {
+			return errC16Injected
+		}
 	}
 	return s.inner.Set(k, v)
 }
@@ -635,8 +648,15 @@ func c16RunIngest(ctx *Ctx, c *xt.T) (*xt.T, Verdict) {
 
 func c16RunChild(ctx *Ctx, c *xt.T) (*xt.T, Verdict) {
 	nrows, w, chunkRows := int(c16Kid(c, 1).N), int(c16Kid(c, 2).N), int(c16Kid(c, 3).N)
-	if os.Getenv("C16_CHILD") == "1" && c.Kids[0].N == 7 {
-		return c16RunIngest(ctx, c)
+	if os.Getenv("C16_CHILD") == "1" {
+		switch c.Kids[0].N {
+		case 7:
+			return c16RunIngest(ctx, c)
+		case 9:
+			return c16CommitChild(ctx, c)
+		case 10:
+			return c16DiffChild(ctx, c)
+		}
 	}
 	if os.Getenv("C16_CHILD") == "1" {
 		// in the child: a crash here is a process death seen by the parent
@@ -688,13 +708,23 @@ func c16RunChild(ctx *Ctx, c *xt.T) (*xt.T, Verdict) {
 		if len(msg) > 300 {
 			msg = msg[:300]
 		}
+		if i := strings.Index(full, "fatal error:"); i >= 0 { // unrecoverable runtime errors (not panics)
+			msg = full[i:]
+			if len(msg) > 300 {
+				msg = msg[:300]
+			}
+		}
 		cls := "child-crash"
 		if strings.Contains(msg, "send on closed channel") {
 			cls = "sorter-errchan-send-on-closed"
+		} else if strings.Contains(full, "concurrent map") {
+			cls = "concurrent-map-access"
 		} else if strings.Contains(full, "insertBlock") {
 			cls = "worker-goroutine-panic"
+		} else if strings.Contains(full, "exit status 66") || strings.Contains(err.Error(), "exit status 66") {
+			cls = "data-race-in-child" // only under the -race harness (GORACE exitcode=66)
 		}
-		return xt.N(xt.L(2)), Fail(cls, "ingest killed the process (panic in a goroutine): %s", strings.ReplaceAll(msg, "\n", " | "))
+		return xt.N(xt.L(2)), Fail(cls, "the command killed the process: %s", strings.ReplaceAll(msg, "\n", " | "))
 	}
 	b, err := os.ReadFile(out)
 	if err != nil {
@@ -775,6 +805,8 @@ func runC16(ctx *Ctx, c *xt.T) (*xt.T, Verdict) {
 		return c16RunMergeFail(ctx, c)
 	case 8:
 		return c16RunProgress(ctx, c)
+	case 9, 10: // command level, in a child process (a hang / Go fatal error cannot be abandoned in-process)
+		return c16RunChild(ctx, c)
 	}
 	return xt.N(xt.L(9)), Fail("bad-case", "unknown kind %d", c.Kids[0].N)
 }
